@@ -89,6 +89,22 @@ func (g *dgen) strct(depth int) reflect.Type {
 
 var dumpStrings = []string{"", "a", "xue", "hello world", "中文", "a:b", "1,2", "{}", "[x]", "é", "null", "true", "0", "a/b", "'q'"}
 
+// runes that need no escape in JSON (everything but `"`, `\\` and U+0000–U+001F): ASCII punctuation, DEL, C1
+// controls, format / private-use / unassigned / astral code points, line separators, HTML-sensitive bytes
+var dumpRunes = []rune{'a', 'Z', '0', ' ', '/', '\'', ':', ',', '{', '}', '[', ']', '<', '>', '&', '=', '%', '~', 0x7f, 0x80, 0x85, 0xa0, 0xad,
+	'é', '中', 0x200b, 0x2028, 0x2029, 0xfeff, 0xfffd, 0xe000, 0x1f600, 0xe0067, 0xf0000, 0x10ffff, 0x0378}
+
+func dumpString(r *rand.Rand) string {
+	if chance(r, 0.6) {
+		return pick(r, dumpStrings)
+	}
+	var sb strings.Builder
+	for i, n := 0, 1+r.IntN(5); i < n; i++ {
+		sb.WriteRune(pick(r, dumpRunes))
+	}
+	return sb.String()
+}
+
 func (g *dgen) fill(v reflect.Value, depth int) {
 	r := g.r
 	if !v.CanSet() || depth > 8 {
@@ -96,7 +112,7 @@ func (g *dgen) fill(v reflect.Value, depth int) {
 	}
 	switch v.Kind() {
 	case reflect.String:
-		v.SetString(pick(r, dumpStrings))
+		v.SetString(dumpString(r))
 	case reflect.Int, reflect.Int8, reflect.Int16, reflect.Int32, reflect.Int64:
 		z := pick(r, smallInts)
 		if chance(r, 0.15) {
@@ -146,7 +162,11 @@ func (g *dgen) fill(v reflect.Value, depth int) {
 				k := reflect.New(v.Type().Key()).Elem()
 				switch k.Kind() {
 				case reflect.String:
-					k.SetString(pick(r, []string{"a", "b", "k1", "中", "", "x y"}))
+					if chance(r, 0.7) {
+						k.SetString(pick(r, []string{"a", "b", "k1", "中", "", "x y"}))
+					} else {
+						k.SetString(dumpString(r))
+					}
 				case reflect.Bool:
 					k.SetBool(chance(r, 0.5))
 				case reflect.Uint8:
